@@ -5,7 +5,7 @@
    refutation is in Properties/C02.v.  The container level (payload inside TaggedBlock / ImageResource) comes from
    Psd/Typed.v. *)
 From PsdV Require Import Base.Prelude Psd.Codec Psd.Model Psd.Proofs Psd.Leaf Psd.Struct Psd.Typed
-  Psd.Effects Psd.EffectsProofs Psd.Descriptor Psd.DescriptorProofs Psd.Adjust Psd.AdjustProofs Psd.Vector Psd.VectorProofs Psd.Patterns Psd.PatternsProofs Psd.Resave Psd.ResaveProofs Psd.ResaveWrite.
+  Psd.Effects Psd.EffectsProofs Psd.Descriptor Psd.DescriptorProofs Psd.Adjust Psd.AdjustProofs Psd.Vector Psd.VectorProofs Psd.Patterns Psd.PatternsProofs Psd.Linked Psd.LinkedProofs Psd.Resave Psd.ResaveProofs Psd.ResaveWrite.
 From Coq Require Import ZArith List Bool Lia ZifyBool.
 Import ListNotations.
 Open Scope Z_scope.
@@ -625,3 +625,95 @@ Proof.
   dres1 Hr as x0 Ex. inversion Hr; subst.
   apply (payload_block_rt v pad (tb_sig tb) (tb_key tb) (w x) rd x bs n rest Hpad (read_tagged_block_wf _ _ _ _ _ Eo) Hw Hrd Hwr).
 Qed.
+
+(* ------------------------------------------------------------------ LinkedLayer (one item of 'lnkD' / 'lnk2' / 'lnk3' / 'lnkE') *)
+Definition odkeys (o : option dblock) : bool := match o with Some b => dkeys (dblock_val b) | None => true end.
+(* the guard: the descriptor guard on the two descriptor blocks and on the grown term set; the embedded data shorter
+   than 2^63 bytes (BytesIO.read refuses more; no such input exists) *)
+Definition lguard (t' : terms) (l : linked) : bool :=
+  odkeys (ll_open l) && odkeys (ll_linked l) && wf_terms t' &&
+  match ll_data l with Some d => len d <? 2 ^ 63 | None => true end.
+
+Lemma read_dblock_s_wf units t s b t' s' :
+  read_dblock_s units t s = Ok (b, t', s') -> dkeys (dblock_val b) = true -> wf_opt_dblock units (Some b) = true.
+Proof.
+  unfold read_dblock_s. intros H Hk. dres H as ver s1 E1. dres H as r s2 E2. destruct (ver =? 16) eqn:Ev; [|discriminate].
+  inversion H; subst. destruct r as [d tr]. cbn [fst snd dblock_val] in *.
+  destruct (read_dval_wf units _ _ _ _ _ _ _ E2) as [Hos Hwf].
+  cbn [wf_opt_dblock wf_dblock]. rewrite Ev, (Hwf Hk), andb_true_r. cbn [andb]. exact (objc_is_desc units d Hos (Hwf Hk)).
+Qed.
+
+Section LinkedWf.
+  Variable enc_s : list Z -> res (list Z).
+  Variable dec_s : list Z -> res (list Z).
+  Hypothesis Hcodec : codec_ok enc_s dec_s.
+
+  Theorem read_linked_wf units t s l t' s' :
+    read_linked dec_s units t s = Ok (l, t', s') -> lguard t' l = true -> wf_linked enc_s dec_s units l = true.
+  Proof.
+    unfold read_linked. intros H Hg.
+    dres H as kind s1 E1. destruct (negb (memz kind model_linked_kinds)) eqn:Ek; [discriminate|]. apply negb_false_iff in Ek.
+    dres H as version s2 E2. destruct (negb ((1 <=? version) && (version <=? 7))) eqn:Ev; [discriminate|].
+    apply negb_false_iff in Ev. apply andb_prop in Ev as [Ev1 Ev7].
+    dres H as uuid s3 E3. dres H as filename s4 E4. dres H as filetype s5 E5. dres H as creator s6 E6.
+    dres H as datasize s7 E7. dres H as has_open s8 E8. dres H as op s9 E9. destruct op as [oo t1]. cbn [fst snd] in H.
+    dres H as mid sb Em. destruct mid as [[[[lf ts] fsz] dat0] t2].
+    dres H as dat1 sc Ed. dres H as tl sd Et. destruct tl as [[child md] lk]. dres H as dat2 se Ee.
+    inversion H; subst. clear H.
+    unfold lguard in Hg. cbn [ll_open ll_linked ll_data] in Hg.
+    apply andb_prop in Hg as [Hg Hdl]. apply andb_prop in Hg as [Hg Hterms]. apply andb_prop in Hg as [Hko Hkl].
+    unfold wf_linked. cbn [ll_kind ll_version ll_uuid ll_open ll_linked ll_timestamp ll_filesize ll_data ll_child ll_mod ll_lock].
+    rewrite Ek, Ev1, Ev7, (r_pascal_wf enc_s dec_s Hcodec _ _ _ _ E3), Hdl. cbn [andb].
+    (* the open descriptor *)
+    assert (Hop : wf_opt_dblock units oo = true).
+    { destruct (has_open =? 0); [inversion E9; reflexivity|].
+      dres E9 as b sa Eb. destruct b as [bb tb]. inversion E9; subst. cbn [fst snd odkeys] in *.
+      exact (read_dblock_s_wf _ _ _ _ _ _ Eb Hko). }
+    rewrite Hop. cbn [andb].
+    (* the tail fields follow the version *)
+    unfold r_tail in Et. dres Et as c u1 F1. dres Et as m u2 F2. dres Et as k u3 F3. inversion Et; subst. clear Et.
+    assert (Hc : Bool.eqb (is_some child) (5 <=? version) = true).
+    { unfold r_opt in F1. destruct (5 <=? version); [dskip F1; inversion F1|inversion F1]; reflexivity. }
+    assert (Hm : Bool.eqb (is_some md) (6 <=? version) = true).
+    { unfold r_opt in F2. destruct (6 <=? version); [dskip F2; inversion F2|inversion F2]; reflexivity. }
+    assert (Hl : Bool.eqb (is_some lk) (7 <=? version) = true).
+    { unfold r_opt in F3. destruct (7 <=? version); [dskip F3; inversion F3|inversion F3]; reflexivity. }
+    rewrite Hc, Hm, Hl, !andb_true_r.
+    destruct (kind =? K_liFE) eqn:KE.
+    - (* external *)
+      dres Em as x sx Ex. destruct x as [[[[lf0 ts0] fsz0] dt0] t20]. injection Em as <- <- <- <- <- <-.
+      unfold r_ext in Ex. dres Ex as lfb v1 G1. dres Ex as tso v2 G2. dres Ex as fs v3 G3. dres Ex as dt v4 G4.
+      injection Ex as <- <- <- <- <- <-. destruct lfb as [lb tlb]. cbn [fst snd odkeys is_some] in *.
+      pose proof (read_dblock_s_wf _ _ _ _ _ _ G1 Hkl) as Hlf. rewrite Hlf. cbn [andb].
+      assert (Hts : Bool.eqb (is_some tso) (3 <? version) = true).
+      { unfold r_opt in G2. destruct (3 <? version); [dskip G2; inversion G2|inversion G2]; reflexivity. }
+      rewrite Hts. cbn [andb].
+      assert (KD : (kind =? K_liFD) = false).
+      { apply Z.eqb_eq in KE. subst kind. reflexivity. }
+      rewrite KD in Ed. inversion Ed; subst. clear Ed.
+      destruct (version =? 2) eqn:V2; cbn [andb] in Ee.
+      + dskip Ee. inversion Ee; subst. cbn [is_some]. apply Z.eqb_eq in V2. subst version. reflexivity.
+      + inversion Ee; subst. unfold r_opt in G4. destruct (2 <? version) eqn:V3.
+        * dskip G4. inversion G4; subst. cbn [is_some]. replace (2 <=? version) with true by lia. reflexivity.
+        * inversion G4; subst. cbn [is_some]. replace (2 <=? version) with false by lia. reflexivity.
+    - cbn [andb] in Ee. inversion Ee; subst. clear Ee.
+      destruct (kind =? K_liFA) eqn:KA.
+      + dres Em as z8 sx Ez. inversion Em; subst. cbn [is_some negb andb].
+        assert (KD : (kind =? K_liFD) = false) by (apply Z.eqb_eq in KA; subst kind; reflexivity).
+        rewrite KD in Ed |- *. inversion Ed; subst. reflexivity.
+      + inversion Em; subst. cbn [is_some negb andb].
+        destruct (kind =? K_liFD) eqn:KD.
+        * dres Ed as d sx Edd. destruct (len d =? datasize); [|discriminate]. inversion Ed; subst. reflexivity.
+        * inversion Ed; subst. reflexivity.
+  Qed.
+
+  Theorem linked_resave units t b l t' r pad s n tail :
+    read_linked dec_s units t b = Ok (l, t', r) -> lguard t' l = true ->
+    write_linked enc_s t' pad l = Ok (s, n) ->
+    exists rest', read_linked dec_s units t' (s ++ tail) = Ok (l, t', rest').
+  Proof.
+    intros Hr Hg Hw. pose proof (read_linked_wf _ _ _ _ _ _ Hr Hg) as Hwf.
+    unfold lguard in Hg. apply andb_prop in Hg as [Hg _]. apply andb_prop in Hg as [_ Ht].
+    exact (linked_rt enc_s dec_s units t' pad l s n tail Ht Hwf Hw).
+  Qed.
+End LinkedWf.
